@@ -17,7 +17,7 @@ FN = ['parsePkgLength', 'parseNumConstant', 'parseString', 'parseNameString', 'n
 class C12(flow.Spec):
     prop = 'C12'
     props_files = ['theories/Props/C12.v', 'theories/Props/C12_examples.v']
-    model_targets = ['theories/Aml/RunC12.vo', 'theories/Aml/ParserProofsTop.vo']
+    model_targets = ['theories/Aml/RunC12.vo', 'theories/Aml/ParserProofsTop.vo', 'theories/Aml/ParserTotalFirst.vo']
     pkg = 'device/acpi/aml'
     harness = [os.path.join(H, 'zz_verif_c12_test.go'), os.path.join(H, 'zz_verif_amlcommon_test.go')]
     test = 'TestVerifC12$'
@@ -41,11 +41,20 @@ class C12(flow.Spec):
                    'the object pool is the list-based model of Aml/Tree.v (C13); model runs of the 8.6 KB DSDT are quadratic, so most of its '
                    'mutations are checked by the monitors only (case kind 2)']
     partial = ['C12_parse_total_partial_slices / _reader: of the full statement C12_full_parse_total (kept in Props/C12.v) the conjunct '
-               '"every []byte of the pool lies inside its table" and the reader invariant are PROVED for all passes of ParseAML and all inputs; '
-               'NOT proved: that the outcome is never Panic / OutOfFuel with the linear fuel (no crash, termination within 64 + 8*len steps of '
-               'recursion depth) and that the resulting pool satisfies C13\'s tree relation R - these are covered by the correspondence of the '
-               'extracted model (explicit Panic / OutOfFuel outcomes, all passes modelled) with the real parser and by the harness monitors '
-               '(outcome class, watchdog, independent link checker, PrettyPrint)',
+               '"every []byte of the pool lies inside its table" and the reader invariant are PROVED for all passes of ParseAML and all inputs',
+               'C12_parse_total_partial_nopanic_first_pass / _R_first_pass: for the FIRST PASS (scopeEnter(0) + parseObjectList with '
+               'parseNextObject, parseObjectArgs, parseArgs, parseArg, parseNamePathOrMethodCall, parseSimpleArg, parseTarget, '
+               'parseFieldElements, parseByteList, scope / pkgEnd stacks; skip mode) it is PROVED for every table image, every pool that '
+               'satisfies C13\'s R with a live root, valid opcode-table indexes and room for 4 objects per byte, and every fuel, that the '
+               'outcome is never Panic and that the returned pool again satisfies R (built on C13\'s append_R / appendAfter_R / newObject_R); '
+               'NOT proved for connectNamedObjArgs, mergeScopeDirectives / relocateNamedObjects, parseDeferredBlocks, resolveMethodCalls, '
+               'connectNonNamedObjArgs (they start from the invariant the first pass is shown to re-establish)',
+               'C12_parse_total_partial_fuel_first_pass: parseNextObject and the inner loop of parseObjectList return (no Panic, no '
+               'OutOfFuel) with fuel 16 per byte left + 3; NOT proved: the outer loop of parseObjectList (needs: scope stack never deeper '
+               'than the pkgEnd stack) and the fuel of the later passes',
+               'the unproved parts of C12_full_parse_total (no Panic / OutOfFuel and R for the later passes, outcome class of load) are covered '
+               'by the correspondence of the extracted model (explicit Panic / OutOfFuel outcomes, all passes modelled) with the real parser '
+               'and by the harness monitors (outcome class, watchdog, independent link checker, PrettyPrint)',
                'layers 1-2 are complete: C12_reader_safe and C12_lex_slices_inside are full (totality, no read at or beyond pkgEnd, slices inside)',
                'modelled passes (Aml/Parser.v): init, parseObjectList / parseNextObject / parseObjectArgs / parseArgs / parseArg / '
                'parseNamePathOrMethodCall / parseStrictTermArg / parseSimpleArg / parseTarget / parseFieldElements / parseByteList, '
